@@ -32,7 +32,7 @@ def pvalerr(part, scope, addr, size):
 
 
 GV = dict(params={'label_scope': 'LabelScope?', 'instruction_address': 'int?', 'instruction_size': 'int'})
-contract(PARTS + 'ByteCodePart.get_value', props=['C01', 'C12', 'C10'], assumed=True,
+contract(PARTS + 'ByteCodePart.get_value', props=['C01', 'C12', 'C10'], assumed=True, covers_overrides=True,
          reason='every override of get_value is deterministic in (part, scope, label tables, address, size) and writes '
                 'nothing; the overrides are verified separately (C12 contracts) to be such functions',
          raises={'SystemExit': 'pexits(self, label_scope, instruction_address, instruction_size)',
